@@ -255,10 +255,10 @@ func main() {
 		if err != nil {
 			log.Fatalf("Cannot load keytab: %s", err)
 		}
-		rdp.NewRoute().HeadersRegexp("Authorization", "Negotiate").Handler(
+		rdp.NewRoute().HeadersRegexp("Authorization", "Negotiate").Handler(web.RecoverAuthentication(
 			spnego.SPNEGOKRB5Authenticate(web.TransposeSPNEGOContext(http.HandlerFunc(gw.HandleGatewayProtocol)),
 				keytab,
-				service.Logger(log.Default())))
+				service.Logger(log.Default())), "Negotiate"))
 
 		// kdcproxy
 		k := kdcproxy.InitKdcProxy(conf.Kerberos.Krb5Conf)
